@@ -570,8 +570,8 @@ var nodeProp = h.Define(P, "node", func(t *rapid.T) Case {
 	switch rapid.IntRange(0, 3).Draw(t, "nmode") {
 	case 0: // policy matching against hostile data
 		data := pol.GenData(t, "data")
-		p := pol.Gen(t, data, pol.GenCfg{Depth: 3, MaxStmt: 3}, "p")
-		// graft hostile leaves into the data
+		// graft hostile leaves into the data, then generate the policy on the
+		// grafted data so that its selectors (slices, indexes) reach them
 		hd := val.V{K: "map", M: append([]val.KV{}, data.M...)}
 		for i := range hd.M {
 			if rapid.IntRange(0, 2).Draw(t, "graft") == 0 {
@@ -581,9 +581,20 @@ var nodeProp = h.Define(P, "node", func(t *rapid.T) Case {
 		if rapid.IntRange(0, 4).Draw(t, "rootkind") == 0 {
 			hd = hostileLeaf(t, "root")
 		}
+		base := data
+		if rapid.Bool().Draw(t, "polongraft") && !hd.HasDupKeys() {
+			base = hd
+		}
+		p := pol.Gen(t, base, pol.GenCfg{Depth: 3, MaxStmt: 3, SelCfg: sel.GenCfg{MaxSegs: 4}}, "p")
 		return Case{Target: "Policy.Match+PartialMatch", Fam: "node-policy", Node: &hd, Pol: p}
 	case 1:
 		data := val.Gen(t, hostileCfg)
+		switch rapid.IntRange(0, 3).Draw(t, "selgraft") {
+		case 0:
+			data = hostileLeaf(t, "sroot")
+		case 1:
+			data = val.Map(val.E("a", hostileLeaf(t, "sa")), val.E("b", val.List(hostileLeaf(t, "sb"), data)))
+		}
 		s := sel.GenFor(t, data, sel.GenCfg{MaxSegs: 6})
 		for i := range s {
 			if s[i].Kind == "index" && rapid.IntRange(0, 5).Draw(t, "bigidx") == 0 {
